@@ -132,15 +132,16 @@ def stepC (st : Core) (c : Nat) : Core :=
 
 def St.core (s : St) : Core := ⟨s.ls, s.lr, s.acc⟩
 
-theorem step_core (st : St) (c : Nat) (hb : st.base ≤ st.ls) :
-    (step st c).core = stepC st.core c ∧ (step st c).base = st.base ∧ st.base ≤ (step st c).ls := by
+theorem step_core (st : St) (c : Nat) (hb : st.base ≤ st.ls) (hm : st.mid = false) :
+    (step st c).core = stepC st.core c ∧ (step st c).base = st.base ∧ st.base ≤ (step st c).ls ∧
+      (step st c).mid = false := by
   by_cases he : isEol c = true
   · have h1 : step st c = { st with ls := st.ls + st.lr.length + 1, lr := [] } := by
       unfold step; simp [he]
     have h2 : stepC st.core c = { st.core with ls := st.ls + st.lr.length + 1, lr := [] } := by
       unfold stepC; simp [he, St.core]
     rw [h1, h2]
-    refine ⟨rfl, rfl, ?_⟩
+    refine ⟨rfl, rfl, ?_, hm⟩
     show st.base ≤ st.ls + st.lr.length + 1
     omega
   · have he' : isEol c = false := by simpa using he
@@ -151,7 +152,7 @@ theorem step_core (st : St) (c : Nat) (hb : st.base ≤ st.ls) :
       have h2 : stepC st.core c = { st.core with lr := c :: st.lr } := by
         unfold stepC hitAt; simp [he', hk, St.core]
       rw [h1, h2]
-      exact ⟨rfl, rfl, hb⟩
+      exact ⟨rfl, rfl, hb, hm⟩
     | some pre =>
       have h2 : stepC st.core c = { st.core with lr := c :: st.lr, acc :=
           (match parseObjHeader (pre.reverse ++ kwObj) with
@@ -163,30 +164,30 @@ theorem step_core (st : St) (c : Nat) (hb : st.base ≤ st.ls) :
             (match parseObjHeader (pre.reverse ++ kwObj) with
              | some (n, g) => pushHeader st.acc ⟨n, g, st.ls⟩
              | none => st.acc) } := by
-          unfold step; simp [he', hk, h4]
+          unfold step; simp [he', hk, h4, hm]
           rcases parseObjHeader (pre.reverse ++ kwObj) with _ | ⟨n, g⟩ <;> rfl
         rw [h1, h2]
-        exact ⟨rfl, rfl, hb⟩
+        exact ⟨rfl, rfl, hb, hm⟩
       · have hp : pre.length < 4 := by omega
         have h1 : step st c = { st with lr := c :: st.lr } := by
-          unfold step; simp [he', hk, h4]
+          unfold step; simp [he', hk, h4, hm]
         rw [h1, h2, parse_short_none pre hp]
-        exact ⟨rfl, rfl, hb⟩
+        exact ⟨rfl, rfl, hb, hm⟩
 
-theorem foldl_step_core (w : Bytes) (st : St) (hb : st.base ≤ st.ls) :
+theorem foldl_step_core (w : Bytes) (st : St) (hb : st.base ≤ st.ls) (hm : st.mid = false) :
     (w.foldl step st).core = w.foldl stepC st.core := by
   induction w generalizing st with
   | nil => rfl
   | cons c r ih =>
     simp only [List.foldl_cons]
-    have := step_core st c hb
-    rw [ih (step st c) (by omega), this.1]
+    have := step_core st c hb hm
+    rw [ih (step st c) (by omega) this.2.2.2, this.1]
 
 theorem scanWindow_eq (w : Bytes) (base : Nat) (acc : List Header) :
     scanWindow w base acc = (w.foldl stepC ⟨base, [], acc⟩).acc := by
   unfold scanWindow
-  have := foldl_step_core w ⟨base, base, [], acc⟩ (Nat.le_refl _)
-  have h2 : (w.foldl step ⟨base, base, [], acc⟩).acc = (w.foldl step ⟨base, base, [], acc⟩).core.acc := rfl
+  have := foldl_step_core w ⟨base, base, [], acc, false⟩ (Nat.le_refl _) rfl
+  have h2 : (w.foldl step ⟨base, base, [], acc, false⟩).acc = (w.foldl step ⟨base, base, [], acc, false⟩).core.acc := rfl
   rw [h2, this]
   rfl
 
@@ -736,11 +737,11 @@ theorem rescan (pre carry : Bytes) (acc : List Header)
   rw [foldl_stepC_seg _ hc, hacc, lineRes_idem]
   simp
 
-theorem chunk_loop (cap k : Nat) (hk : 0 < k) (f : Bytes) (hb : LinesBounded cap f) :
+theorem chunk_loop (fix : Bool) (cap k : Nat) (hk : 0 < k) (f : Bytes) (hb : LinesBounded cap f) :
     ∀ (fuel : Nat) (pre carry rest : Bytes) (acc : List Header), f = pre ++ carry ++ rest →
       (pre = [] ∨ ∃ p' e, pre = p' ++ [e] ∧ isEol e = true) → (∀ c ∈ carry, isEol c = false) →
       (pre ++ carry).foldl stepC ⟨0, [], []⟩ = ⟨pre.length, carry.reverse, acc⟩ → rest.length < fuel →
-      scanChunkedAux cap k fuel rest carry pre.length acc = (f.foldl stepC ⟨0, [], []⟩).acc := by
+      scanChunkedAux fix cap k fuel rest carry pre.length false acc = (f.foldl stepC ⟨0, [], []⟩).acc := by
   intro fuel
   induction fuel with
   | zero => intro pre carry rest acc _ _ _ _ hf; omega
@@ -748,7 +749,7 @@ theorem chunk_loop (cap k : Nat) (hk : 0 < k) (f : Bytes) (hb : LinesBounded cap
     intro pre carry rest acc hfe hpre hcar hst hfuel
     have hre := rescan pre carry acc hpre hcar hst
     unfold scanChunkedAux
-    simp only
+    simp only [Bool.and_false, Bool.false_and, Bool.or_false]
     cases rest with
     | nil =>
       simp only [List.take_nil, List.isEmpty_nil, Bool.true_and, List.append_nil, if_true]
@@ -781,7 +782,11 @@ theorem chunk_loop (cap k : Nat) (hk : 0 < k) (f : Bytes) (hb : LinesBounded cap
           omega
         simp only [this, if_false]
         omega
-      rw [hs]
+      have hcapf : decide ((carry ++ chunk).length - lastLineStart (carry ++ chunk) > cap) = false := by
+        unfold lastLineStart
+        simp only [decide_eq_false_iff_not]
+        omega
+      rw [hs, hcapf]
       have htake : (carry ++ chunk).take p.length = p := by
         conv => lhs; rw [hw]
         simp
@@ -811,11 +816,21 @@ theorem chunk_loop (cap k : Nat) (hk : 0 < k) (f : Bytes) (hb : LinesBounded cap
         exact ⟨by omega, hlsr.2⟩
       · simp at hfuel ⊢; omega
 
+theorem scanChunkedOld_eq (k : Nat) (f : Bytes) (hb : LinesBounded CARRY_CAP f) :
+    scanChunkedOld k f = sortByOff (scanFull f) := by
+  unfold scanChunkedOld
+  have hk : 0 < (if k = 0 then 1 else k) := by split <;> omega
+  have := chunk_loop false CARRY_CAP _ hk f hb (f.length + 2) [] [] f [] (by simp) (Or.inl rfl) (by simp) rfl (by omega)
+  simp only [List.length_nil] at this
+  rw [this]
+  unfold scanFull
+  rw [scanWindow_eq]
+
 theorem scanChunkedRaw_eq (cap k : Nat) (f : Bytes) (hb : LinesBounded cap f) :
     scanChunkedRaw cap k f = scanFull f := by
   unfold scanChunkedRaw
   have hk : 0 < (if k = 0 then 1 else k) := by split <;> omega
-  have := chunk_loop cap _ hk f hb (f.length + 2) [] [] f [] (by simp) (Or.inl rfl) (by simp) rfl (by omega)
+  have := chunk_loop true cap _ hk f hb (f.length + 2) [] [] f [] (by simp) (Or.inl rfl) (by simp) rfl (by omega)
   simp only [List.length_nil] at this
   rw [this]
   unfold scanFull
